@@ -180,7 +180,7 @@ def check_copy_family(rep, scr, tier, seed):
     if pid in ('C01', 'C03', 'C04', 'C05', 'C06'):
         for v in variants: getenv_batch(rep, scr, impls[v], md, consts[v], pid, v, tier, seed)
     if pid == 'C05': printf_report_batch(rep, scr, impls['O1'], consts['O1'], tier, seed)
-    if pid in ('C01', 'C02', 'C03', 'C04', 'C05', 'C06', 'C08'):
+    if pid in ('C01', 'C02', 'C03', 'C04', 'C05', 'C06', 'C07', 'C08'):
         for v in variants: sweep_batch(rep, scr, impls[v], consts[v], pid, v, tier, seed, md)
     report_proofs(rep, pr, pid)
     report_mismatches(rep, 'T1')
@@ -362,7 +362,8 @@ def sweep_batch(rep, scr, impl, consts, pid, var, tier, seed, md=None):
     implementation-side oracles, generic in the destination descriptor of each case"""
     import sweep, random
     rng = random.Random(seed * 13 + 5)
-    groups = [('C', sweep.ext_cases(seed, tier, consts, pid))]
+    groups = [('C', sweep.ext_cases(seed, tier, consts, pid))] if pid != 'C07' else []
+    if pid in ('C01', 'C02', 'C04', 'C07'): groups.append(('C', sweep.overlap_cases(seed, tier, consts)))
     if pid in ('C01', 'C03', 'C04', 'C05', 'C08'): groups.append(('C', sweep.fmt_cases(seed, tier, consts)))
     if pid in ('C01', 'C03', 'C04', 'C05', 'C06', 'C08'):
         for loc, locname in (('u8', 'C.UTF-8'), ('c', 'C')):
@@ -417,7 +418,7 @@ def sweep_batch(rep, scr, impl, consts, pid, var, tier, seed, md=None):
             if a is None:
                 rep.violation('driver produced no outcome for a case', {'key': 'nooutcome', 'case': c.to_json(), 'no_failing_input': True}); continue
             rep.nontrivial.add((c.func, 'sweep', a.ret, tuple(a.handlers), var))
-            for kind, text in sweep.oracle(pid, c, a, consts):
+            for kind, text in (sweep.oracle_C07(c, a, consts) if (pid == 'C07' and c.meta.get('cls') == 'sweep-ovl') else sweep.oracle(pid, c, a, consts)):
                 kid = known.classify(rep, c, a, kind, var, consts)
                 if kid: rep.known_hits[kid] = rep.known_hits.get(kid, 0) + 1
                 else:
@@ -1243,20 +1244,18 @@ def gen_conv_cases(seed, tier, consts, loc):
     # restartable forms (implementation side only): srcp is a pointer to the source pointer
     for s in strings[:40]:
         nb = len(mb(s)); nc = len(s)
-        for dmax in sorted(set([nc + 1, nc + 3])):
-            for ln in sorted(set([max(nc - 1, 0), nc, nc + 2])):
-                if ln > dmax: continue
+        for dmax in sorted(set([1, nc, nc + 1, nc + 3]) - {0}):
+            for ln in sorted(set([max(nc - 1, 0), nc, nc + 2, nc + 5])):
                 src = mb(s) + b'\0'
                 pp = block_addr(2, 'R', len(src)).to_bytes(8, 'little')
                 n[0] += 1; cs.append(vlib.Case('v%d' % n[0], 'mbsrtowcs_s', [('R', ret8), ('R', fam_copy.garbage(rng, 4 * dmax)), ('R', src), ('R', pp), ('R', b'\0' * 8)],
-                    [(0, 0), (1, 0), dmax, (3, 0), ln, (4, 0), UNK], dict(cls='conv', func='mbsrtowcs_s', loc=loc, op='mbsrtowcs', chars=s, dmax=dmax, len=ln, kind='ok', valid=True, objelems=dmax)))
+                    [(0, 0), (1, 0), dmax, (3, 0), ln, (4, 0), UNK], dict(cls='conv', func='mbsrtowcs_s', loc=loc, op='mbsrtowcs', chars=s, dmax=dmax, len=ln, kind='len>dmax' if ln > dmax else 'ok', valid=True, objelems=dmax)))
         wsrc = fam_copy.enc(s + [0], 4)
-        for dmax in sorted(set([nb + 1, nb + 4])):
-            for ln in sorted(set([max(nb - 1, 0), nb, nb + 1])):
-                if ln > dmax: continue
+        for dmax in sorted(set([1, nb, nb + 1, nb + 4]) - {0}):
+            for ln in sorted(set([max(nb - 1, 0), nb, nb + 1, nb + 6])):
                 pp = block_addr(2, 'R', len(wsrc)).to_bytes(8, 'little')
                 n[0] += 1; cs.append(vlib.Case('v%d' % n[0], 'wcsrtombs_s', [('R', ret8), ('R', fam_copy.garbage(rng, dmax)), ('R', wsrc), ('R', pp), ('R', b'\0' * 8)],
-                    [(0, 0), (1, 0), dmax, (3, 0), ln, (4, 0), UNK], dict(cls='conv', func='wcsrtombs_s', loc=loc, op='wcsrtombs', chars=s, dmax=dmax, len=ln, kind='ok', valid=True, objelems=dmax)))
+                    [(0, 0), (1, 0), dmax, (3, 0), ln, (4, 0), UNK], dict(cls='conv', func='wcsrtombs_s', loc=loc, op='wcsrtombs', chars=s, dmax=dmax, len=ln, kind='len>dmax' if ln > dmax else 'ok', valid=True, objelems=dmax)))
     # a conversion state that is not initial on entry (UTF-8 only): a multibyte character split between mbrtowc and mbsrtowcs_s,
     # then a second string converted with the same state
     if loc == 'u8':
@@ -1311,7 +1310,7 @@ def check_C15(rep, scr, tier, seed):
                             rep.violation('%s(%s,%s): %s' % (m['func'], locname, var, text), {'key': (m['func'], kind, loc), 'property': 'C15', 'function': 'mbsrtowcs_s', 'locale': locname, 'failure': kind, 'case': x.to_json(), 'case_line': x.line(), 'impl_outcome': a.raw})
                         continue
                     rc = int(a.ret); retval = int.from_bytes(a.blocks[0][:8], 'little')
-                    if m['op'] in ('mbstowcs', 'wcstombs', 'mbsrtowcs', 'wcsrtombs') and m['kind'] in ('ok', 'query') and m['valid']:
+                    if m['op'] in ('mbstowcs', 'wcstombs', 'mbsrtowcs', 'wcsrtombs') and m['kind'] in ('ok', 'query', 'len>dmax') and m['valid']:
                         s = m['chars']; unit = 4 if m['op'] in ('mbstowcs', 'mbsrtowcs') else 1
                         full = s if m['op'] in ('mbstowcs', 'mbsrtowcs') else list(''.join(chr(c) for c in s).encode('utf-8'))
                         need = len(full)
